@@ -870,7 +870,10 @@ META = {
                    'obfuscated) a frame of fully symbolic bytes goes through the real decode_message_data: on every feasible path only '
                    'MessageDeserializationError escapes or a MessageDataclass of the code on the wire is returned. (b) Array counts are '
                    'symbolic up to 2^32-1 and fork lazily; a monitor asserts that no array loop completes more elements than the frame has '
-                   'bytes (the derived unwinding bound). (c) A stream of T symbolic bytes (symbolic length prefixes, obfuscated too) is read '
+                   'bytes (the derived unwinding bound); `while` loops around a streaming inflate are bounded through the zlib stand-in '
+                   '(decompressobj.decompress() called more than len(data)+2 times without progress = non-termination witness; complete, '
+                   'truncated and corrupt streams are modelled); concrete executions (real-zlib corruptions, every replay) run under a '
+                   'SIGALRM watchdog so that a hang is a parse_terminates refutation, not a stuck job. (c) A stream of T symbolic bytes (symbolic length prefixes, obfuscated too) is read '
                    'with the real receive_message/_read/_read_message under several segmentations: each returned frame is exactly header + '
                    'prefix-many bytes of the stream per an independent reference (little endian, pinned keystream), the next header starts '
                    'right after it, an incomplete frame is never delivered and the end of the stream closes the connection. (d) Real '
@@ -916,8 +919,11 @@ META = {
                       'job partition: message code mod parts', 'which of 64 concrete zlib corruptions (enumerated: real zlib is C code)'],
     'bounds': {t: _bounds_text(t) for t in BOUNDS},
     'outside': ['frames longer than the bounds (long strings, arrays with more elements than fit)',
-                'the real zlib bit stream for symbolic data: a symbolic compressed body is modelled as "either not a zlib stream (zlib.error) or a '
-                'container around arbitrary bytes no longer than the frame"; real zlib only sees 64 concrete corruptions per compressed class; '
+                'the real zlib bit stream for symbolic data: a symbolic compressed body is modelled as "not a zlib stream (zlib.error), a complete '
+                'container around arbitrary bytes no longer than the frame, or a truncated stream (empty / first tag byte in the fully symbolic '
+                'frames; with arbitrary partial output in the `compressed` jobs)"; real zlib only sees 64 concrete corruptions per compressed class; '
+                'non-terminating loops on symbolic data that neither iterate over `range` nor call the decompressobj stand-in (exploration has no '
+                'wall-clock watchdog: such a job would end NOT-EXHAUSTED, not green); '
                 'decompression bombs / memory exhaustion',
                 'read time-outs other than the one of the stall scenario (no virtual time passes elsewhere), write errors, concurrent disconnect '
                 'by another task, a peer that sends so slowly that the time-out interleaves with a frame',
